@@ -234,6 +234,10 @@ func (w *World) p4JSON() map[string]interface{} {
 	st := w.P4.Snapshot()
 	n := w.p4n
 
+	if w.LightDp { // the tables are not part of what this history is judged by: an empty switch is recorded
+		st = fakep4.State{}
+	}
+
 	list := func(table string, mk func(f flatEntry) map[string]interface{}) []map[string]interface{} {
 		out := []map[string]interface{}{}
 
